@@ -222,7 +222,8 @@ PLAN = {
         "replay_runner": "loop", "replay_trace": "Trace_SendLoop",
     },
     "C09": {
-        "mc": [],
+        "mc": [{"name": "send-loop-inductive-invariant(any max_redirections)", "apalache": True, "tla": "SendLoopInd.tla", "inv": "IndInv", "indinit": "IndInit",
+                "cinit": "ConstInit", "implies": "Consequences"}],
         "families": [{"gen": ("tlc", {"name": "redirect-chains", "tla": "MC_Redirect.tla", "cfg": "MC_Redirect.cfg", "cfg_thorough": "MC_Redirect_thorough.cfg", "workers": 8}),
                       "runner": "loop", "trace": "Trace_SendLoop"}],
         "rule": "redirect chains, cycles and self-loops enumerated by TLC: per step a status (200, 404, 300-308, 399) and a Location reference (absolute incl. other host/port/scheme, scheme-relative, absolute-path with dot segments, relative with ./.., query-only, fragment, empty, missing, unparsable, non-http scheme) x max_redirections x follow on/off; URLs computed by Rfc3986!Resolve; each chain replayed against reactive scripted peers",
